@@ -29,6 +29,9 @@ def run(ctx):
     r44(ctx, wr)
     r46(ctx, api)
     r48(ctx, api)
+    r410(ctx, api)
+    from . import findings2 as _f2
+    _f2.json_statistics(ctx, 'R4.9')
     from . import c02, c05, c20
     c02.r27(ctx, 'R4.7')
     c05.r55(ctx, api)        # sorted_partitioned_columns(filters=...) goes through filter_row_groups(as_idx=True)
@@ -274,3 +277,12 @@ def r48(ctx, api, rule='R4.8'):
         and isinstance(sel[0].value.elt, ast.Subscript) and norm(sel[0].value.elt.slice) == norm(sel[0].value.generators[0].target)
     ctx.ob(rule, 'api.sorted_partitioned_columns:statistics-selected-by-row-group-index', ok,
            '`%s`' % (norm(sel[0])[:120] if sel else 'selection not found'), api.loc(g))
+
+
+def r410(ctx, api, rule='R4.10'):
+    """statistics cached on the handle are derived from its row groups: the cache is dropped wherever the handle's row
+    groups are (re)installed (_set_attrs), so that a mutated handle does not answer with the old statistics"""
+    f = api.func('ParquetFile._set_attrs')
+    resets = [st for st in walk_no_nested(f) if isinstance(st, ast.Assign) and norm(st.targets[0]) == 'self._statistics'
+              and isinstance(st.value, ast.Constant) and st.value.value is None]
+    ctx.ob(rule, 'api._set_attrs:statistics-cache-dropped-with-the-row-groups', len(resets) == 1, '', api.loc(f))
